@@ -36,7 +36,7 @@ import (
 const (
 	c45KMap        = 0 // Map(x -> x*A+B)
 	c45KTryMap     = 1 // TryMap(x -> x*A+B), fails on x mod FailMod == FailRem
-	c45KFilter     = 2 // Filter(x mod A != B)
+	c45KFilter     = 2 // Filter: Variant 0 keeps x mod A != B, 1 keeps x < B, 2 keeps x >= B
 	c45KFlatMap    = 3 // x -> k copies x, x+1, ..; k = |x| mod (N+1); Variant 1: Map-to-slice then Flatten
 	c45KBatchFlat  = 4 // Batch(N, Wait) then Flatten
 	c45KScan       = 5 // Scan(zero=B, acc*A + x)
@@ -119,11 +119,34 @@ func c45GenInput(t *rapid.T) []int64 {
 	case 3, 4:
 		// around the demand-window constants (refill 64, 224-64, initial 224, buffer 256)
 		n = rapid.SampledFrom([]int{63, 64, 65, 159, 160, 161, 223, 224, 225, 226, 255, 256, 257, 288, 289, 300}).Draw(t, "len_boundary")
+	case 5, 6:
+		// several demand windows (224 per window, refill at <= 64 outstanding)
+		n = rapid.OneOf(rapid.IntRange(225, 700), rapid.SampledFrom([]int{289, 290, 384, 385, 448, 449, 600, 672, 673, 700})).Draw(t, "len_multi_window")
 	default:
 		n = rapid.IntRange(10, 300).Draw(t, "len_any")
 	}
 	out := make([]int64, 0, n)
-	style := rapid.IntRange(0, 3).Draw(t, "val_style")
+	style := rapid.IntRange(0, 5).Draw(t, "val_style")
+	if style == 4 {
+		// ascending: threshold predicates cut it into one long kept and one long dropped run
+		start := rapid.Int64Range(-5, 5).Draw(t, "asc_start")
+		step := rapid.SampledFrom([]int64{1, 1, 1, -1, 2}).Draw(t, "asc_step")
+		for i := 0; i < n; i++ {
+			out = append(out, start+int64(i)*step)
+		}
+		return out
+	}
+	if style == 5 {
+		// long constant runs (65 and more): Deduplicate / empty FlatMap drop whole stretches
+		for len(out) < n {
+			v := rapid.Int64Range(-2, 6).Draw(t, "v")
+			run := rapid.SampledFrom([]int{1, 2, 30, 64, 65, 66, 100, 160, 161, 224, 300, 450}).Draw(t, "long_run")
+			for r := 0; r < run && len(out) < n; r++ {
+				out = append(out, v)
+			}
+		}
+		return out
+	}
 	for len(out) < n {
 		var v int64
 		switch style {
@@ -182,8 +205,13 @@ func c45GenStage(t *rapid.T, unordered bool, flatMaps int, failing int) c45Stage
 			}
 		}
 	case c45KFilter:
-		s.A = rapid.Int64Range(1, 5).Draw(t, "mod")
-		s.B = rapid.Int64Range(0, s.A-1).Draw(t, "rem")
+		s.Variant = rapid.SampledFrom([]int{0, 0, 1, 2}).Draw(t, "filter_variant")
+		if s.Variant == 0 { // keep x mod A != B
+			s.A = rapid.Int64Range(1, 5).Draw(t, "mod")
+			s.B = rapid.Int64Range(0, s.A-1).Draw(t, "rem")
+		} else { // threshold: 1 keeps x < B, 2 keeps x >= B
+			s.B = rapid.OneOf(rapid.Int64Range(-10, 20), rapid.Int64Range(0, 700), rapid.SampledFrom([]int64{64, 100, 159, 160, 224, 225, 300})).Draw(t, "threshold")
+		}
 	case c45KFlatMap:
 		s.N = rapid.IntRange(1, 3).Draw(t, "max_copies")
 		s.Variant = rapid.IntRange(0, 1).Draw(t, "variant")
@@ -294,7 +322,7 @@ func c45Gen(t *rapid.T) c45Case {
 		}
 		c.Stages = append(c.Stages, s)
 	}
-	c.Fusion = rapid.IntRange(0, 3).Draw(t, "fusion")
+	c.Fusion = rapid.SampledFrom([]int{c45FuseDefault, c45FuseStateless, c45FuseNone, c45FuseNone, c45FuseAggressive}).Draw(t, "fusion")
 	if c.Fusion == c45FuseAggressive {
 		// The documentation of FuseAggressive ("including those with buffering") leaves open
 		// whether a Buffer joins a fused run; keep per-stage error strategies away from it.
@@ -332,6 +360,16 @@ func c45Mod(x, m int64) int64 {
 		r += m
 	}
 	return r
+}
+
+func c45Keep(s c45Stage, x int64) bool {
+	switch s.Variant {
+	case 1:
+		return x < s.B
+	case 2:
+		return x >= s.B
+	}
+	return c45Mod(x, s.A) != s.B
 }
 
 func c45Abs(x int64) int64 {
@@ -423,7 +461,7 @@ func c45Interpret(c *c45Case) c45Expect {
 			}
 		case c45KFilter:
 			for _, x := range cur {
-				if c45Mod(x, s.A) != s.B {
+				if c45Keep(s, x) {
 					next = append(next, x)
 				}
 			}
@@ -464,7 +502,7 @@ func (e *c45StageErr) Error() string { return "c45: stage " + strconv.Itoa(e.sta
 var (
 	c45Events   eventstream.Subscriber
 	c45System   actor.ActorSystem
-	c45StallMax = 12 * time.Second
+	c45StallMax = 10 * time.Second
 )
 
 type c45Fold struct {
@@ -495,15 +533,17 @@ func (s *c45Sleeper) pause(us int, x int64) {
 }
 
 type c45Run struct {
-	timedOut bool
-	skipped  bool // the run hit a listed known finding that makes it undecidable
-	err      error
-	items    []int64   // flattened elements seen by the sink (Collect / ForEach)
-	batches  [][]int64 // when the program ends in Batch
-	fold     c45Fold
-	changed  bool // sink content changed after Done was closed
-	actors   []actor.Actor
-	pids     []*actor.PID
+	timedOut  bool
+	stalled   string // name of the stage a timed-out stream is stuck at
+	skipped   bool   // the run hit a listed known finding that makes it undecidable
+	err       error
+	items     []int64   // flattened elements seen by the sink (Collect / ForEach)
+	batches   [][]int64 // when the program ends in Batch
+	fold      c45Fold
+	changed   bool // sink content changed after Done was closed
+	actors    []actor.Actor
+	pids      []*actor.PID
+	stallDiag string
 }
 
 // diag renders the internal ledgers of the stage actors (diagnostics only).
@@ -597,7 +637,7 @@ func c45Build(c *c45Case, errs []*c45StageErr, sl *c45Sleeper, stop chan struct{
 			}
 			src = src.Via(f)
 		case c45KFilter:
-			src = src.Via(Filter(func(x int64) bool { return c45Mod(x, s.A) != s.B }))
+			src = src.Via(Filter(func(x int64) bool { return c45Keep(s, x) }))
 		case c45KFlatMap:
 			expand := func(x int64) []int64 {
 				k := c45Abs(x) % int64(s.N+1)
@@ -652,7 +692,6 @@ func c45Reap(from uint64) {
 		}
 	}
 }
-
 
 // ---- stage mailboxes ------------------------------------------------------------
 //
@@ -749,6 +788,102 @@ func c45Livelocked(boxes []*c45Mailbox) (int, int64, bool) {
 		}
 	}
 	return 0, 0, false
+}
+
+// c45StageGroups names the stage actors of the materialized graph in pipeline order
+// (source first, sink last), fused runs joined with "+".
+func c45StageGroups(c *c45Case) []string {
+	type atom struct {
+		name string
+		fuse bool
+	}
+	atoms := []atom{{"Source", false}}
+	for _, s := range c.Stages {
+		switch s.K {
+		case c45KMap, c45KTryMap, c45KFilter:
+			atoms = append(atoms, atom{c45KindNames[s.K], true})
+		case c45KFlatMap:
+			if s.Variant == 1 {
+				atoms = append(atoms, atom{"Map", true}, atom{"Flatten", false})
+			} else {
+				atoms = append(atoms, atom{"FlatMap", false})
+			}
+		case c45KBatchFlat:
+			atoms = append(atoms, atom{"Batch", false}, atom{"Flatten", false})
+		default:
+			atoms = append(atoms, atom{c45KindNames[s.K], false})
+		}
+	}
+	if c.FinalBatchN > 0 {
+		atoms = append(atoms, atom{"Batch", false})
+	}
+	atoms = append(atoms, atom{"Sink", false})
+	var out []string
+	for i := 0; i < len(atoms); {
+		j := i + 1
+		if c.Fusion != c45FuseNone && atoms[i].fuse {
+			for j < len(atoms) && atoms[j].fuse {
+				j++
+			}
+		}
+		name := atoms[i].name
+		for k := i + 1; k < j; k++ {
+			name += "+" + atoms[k].name
+		}
+		out = append(out, name)
+		i = j
+	}
+	return out
+}
+
+// c45StalledStage names the stage at which a stalled stream is stuck. Preferred
+// evidence is the demand ledger: the most downstream flow stage that is alive, holds no
+// output, has not seen upstream completion and has no credit outstanding is the one that
+// stopped asking. Fallback: the first stage that is still alive, or - when the source
+// itself is still waiting for demand - the stage right behind it.
+func c45StalledStage(c *c45Case, pids []*actor.PID, actors []actor.Actor) string {
+	names := c45StageGroups(c)
+	if len(names) != len(pids) || len(pids) < 2 {
+		return "unknown"
+	}
+	// captured actor instances exist for unfused stages only, in pipeline order
+	byGroup := make([]actor.Actor, len(names))
+	k := 0
+	for i, n := range names {
+		if strings.Contains(n, "+") {
+			continue
+		}
+		if k < len(actors) {
+			byGroup[i] = actors[k]
+			k++
+		}
+	}
+	if k == len(actors) {
+		for i := len(names) - 2; i >= 1; i-- {
+			if pids[i] == nil || !pids[i].IsRunning() {
+				continue
+			}
+			switch v := byGroup[i].(type) {
+			case *flowActor:
+				if v.upstreamCredit <= 0 && v.outputBuf.empty() && !v.completing {
+					return names[i]
+				}
+			case *batchFlowActor[int64]:
+				if v.upstreamCredit <= 0 && len(v.window) == 0 {
+					return names[i]
+				}
+			}
+		}
+	}
+	for i, p := range pids {
+		if p != nil && p.IsRunning() {
+			if i == 0 {
+				i = 1
+			}
+			return names[i]
+		}
+	}
+	return "unknown"
 }
 
 // c45DrainPanics returns the suspension reasons of stream stage actors published on
@@ -896,6 +1031,14 @@ wait:
 		}
 	}
 	tick.Stop()
+	if r.timedOut {
+		if impl, ok := h.(*streamHandleImpl); ok {
+			r.stalled = c45StalledStage(c, impl.stageActors, actors)
+			r.pids = impl.stageActors
+			r.actors = actors
+			r.stallDiag = r.diag()
+		}
+	}
 	panics = append(panics, c45DrainPanics()...)
 	if len(panics) > 0 {
 		how := "the stream completed 'normally' (Err()==nil) with whatever the sink had consumed"
@@ -1204,6 +1347,28 @@ func c45Exec(x *vfkit.X, c c45Case) {
 			return
 		}
 		if r.timedOut {
+			// Three strikes: a stall is a verdict only when the identical program stalls in
+			// two further executions with fresh stages, handles and functions; anything less
+			// (scheduling luck, the sporadic wiring race) stays inconclusive.
+			strikes := 1
+			for strikes < 3 {
+				errs2 := make([]*c45StageErr, len(c.Stages))
+				for i := range errs2 {
+					errs2[i] = &c45StageErr{stage: i}
+				}
+				sl2 := &c45Sleeper{}
+				sl2.left.Store(150)
+				stop2 := make(chan struct{})
+				r2 := c45Execute(x, &c, c45Build(&c, errs2, sl2, stop2), sl2)
+				close(stop2)
+				if r2.skipped || !r2.timedOut {
+					break
+				}
+				strikes++
+			}
+			if strikes >= 3 {
+				x.Failf("stream-never-completes:"+r.stalled, "Done() did not close within %v in 3 of 3 executions of the same program; the stream is stuck at stage %q after delivering %d of %d expected elements (program %s, fusion %d)%s", c45StallMax, r.stalled, len(r.items)+len(r.batches)+r.fold.N, len(e.out), c45Shape(&c), c.Fusion, r.stallDiag)
+			}
 			x.Class("inconclusive-timeout")
 			x.Class("inconclusive-timeout:" + c45Shape(&c))
 			if os.Getenv("C45_DEBUG") != "" {
